@@ -197,10 +197,19 @@ func modify(cs *caseState, pi int, op string, in map[string]any) map[string]any 
 			m = map[string]any{}
 		}
 		m[fmt.Sprintf("p%d", pi)] = "seen"
+		// a rewrite may also REMOVE what the client sent: the client's own meta and its host name are dropped
+		delete(m, "m")
+		delete(c, "hostname")
 		c["metas"] = m
 	case "NewProxy":
 		c["remote_port"] = float64(cs.ports[1+pi])
 		c["proxy_name"] = fmt.Sprintf("%v-m%d", c["proxy_name"], pi)
+		if nm, _ := c["metas"].(map[string]any); nm != nil {
+			delete(nm, "np")
+			nm[fmt.Sprintf("np%d", pi)] = "seen"
+			c["metas"] = nm
+		}
+		delete(c, "group_key")
 	case "Ping", "NewWorkConn":
 		ts, _ := c["timestamp"].(float64)
 		c["timestamp"] = ts + float64(1000*(pi+1))
@@ -514,7 +523,7 @@ func oneCase(c *h.Case) {
 
 	// ---- NewProxy
 	pname := fmt.Sprintf("c%d.tcp", c.Idx)
-	resp, err := p.NewProxy(&msg.NewProxy{ProxyName: pname, ProxyType: "tcp", RemotePort: ports[5]}, 10*time.Second)
+	resp, err := p.NewProxy(&msg.NewProxy{ProxyName: pname, ProxyType: "tcp", RemotePort: ports[5], Metas: map[string]string{"np": "v", "keep": "k"}, GroupKey: "gk"}, 10*time.Second)
 	wantNP, _ := expectedOK(cs, "NewProxy")
 	effName, effPort := pname, ports[5]
 	if lm := lastModifier(cs, "NewProxy"); lm >= 0 && wantNP {
@@ -547,6 +556,22 @@ func oneCase(c *h.Case) {
 		u, _ := ct["user"].(map[string]any)
 		if u == nil || u["user"] != effUser || u["run_id"] != p.RunID {
 			return fmt.Sprintf("user info %v does not describe the session (user %s run id %s)", u, effUser, p.RunID)
+		}
+		// the session's metas are what the Login chain left: every modifying plugin removed the client's own
+		// meta "m" and added its mark — a removal must be acted on like any other edit
+		effMetas := map[string]any{"m": "v"}
+		for _, q := range chainOf(cs, "Login") {
+			if cs.script[q]["Login"] == "modify" {
+				delete(effMetas, "m")
+				effMetas[fmt.Sprintf("p%d", q)] = "seen"
+			}
+		}
+		gotMetas, _ := u["metas"].(map[string]any)
+		if gotMetas == nil {
+			gotMetas = map[string]any{}
+		}
+		if !reflect.DeepEqual(normalize(gotMetas), normalize(effMetas)) {
+			return fmt.Sprintf("session metas %v, the Login chain left %v", gotMetas, effMetas)
 		}
 		return ""
 	})
